@@ -33,6 +33,17 @@ def replay(rec):
         for name, obs, pred in (('C16.a:der%d' % sc['order'], float(dv), rec['value']), ('C16.a:e', float(ev), rec['e_value'])):
             if isbad(pred): res.append((name, 'inconclusive', ''))
             else: res.append((name, 'ok' if close(obs, pred) else 'mismatch', 'obs=%r pred=%s' % (obs, Fr(*pred))))
+        # history: the dynamics of the first state are declared again after der() was used; der() follows the declaration
+        if sc['e'] in ('d6', 'd1') and sc['order'] == 1 and not rec['decl'].get('xblocks'):
+            try:
+                quiet(b.ocp.set_der, b.x[0], mx(b, rec['decl']['rhs'][0]) + 1)
+                d2 = quiet(b.ocp.der, e)
+                dv2 = float(ca.Function('d2', syms, [d2])(*vals))
+                # de/dx1 at the point, by the same symbolic expression
+                want2 = float(dv) + float(ca.Function('j', syms, [ca.jacobian(e, b.x[0])])(*vals))
+                res.append(('C16.c:der_after_set_der', 'ok' if abs(dv2 - want2) <= 1e-9 * max(1, abs(want2)) else 'mismatch', 'der(e) after re-declaring der(x1) + 1: %r, expected %r' % (dv2, want2)))
+            except Exception as ex:
+                res.append(('C16.c:der_after_set_der', 'error', '%s: %s' % (type(ex).__name__, (str(ex).splitlines() or [''])[-1][:160])))
         # der() of an expression that mentions a control is documented to raise -- also next to explicit time
         if sc['e'] == 'd6' and sc['order'] == 1 and sc['seed'] % 3 == 2:
             b3 = quiet(build, rec['decl'], None, False)
